@@ -642,7 +642,7 @@ func checkMain(args []string) int {
 		v := c.v
 		ok := false
 		var o *replayOutcome
-		if noReplay[v.Harness] {
+		if noReplay[v.Harness] || v.NoNative {
 			ok = true // schedule counterexample: deterministic re-execution in the executor is the confirmation
 		} else {
 			o = rep.replay(v)
